@@ -251,9 +251,25 @@ func TestC04_HMAC_PBKDF2(t *testing.T) {
 		if got2, want2 := mac.Sum(nil), rsm3.HMAC(key, key); !bytes.Equal(got2, want2) {
 			t.Fatalf("HMAC-SM3 after Reset: got %x want %x", got2, want2)
 		}
+		// one MAC object reused for a series of messages through Reset (crypto/hmac restores its keyed state from a
+		// snapshot when the hash offers one): lengths around the padding and block boundaries, each compared with the
+		// definition
+		for round := 0; round < 4; round++ {
+			m := gen.Bytes(gen.LenAround(64, 200)).Draw(t, "reuseMsg")
+			if round%2 == 1 {
+				m = gen.BytesN(rapid.IntRange(50, 75).Draw(t, "padZone")).Draw(t, "reuseMsgPad")
+			}
+			mac.Reset()
+			cut := rapid.IntRange(0, len(m)).Draw(t, "reuseCut")
+			mac.Write(m[:cut])
+			mac.Write(m[cut:])
+			if g, w := mac.Sum(nil), rsm3.HMAC(key, m); !bytes.Equal(g, w) {
+				t.Fatalf("HMAC-SM3 object reused through Reset, message %d (%d bytes): got %x want %x", round, len(m), g, w)
+			}
+		}
 		iter := rapid.IntRange(1, 12).Draw(t, "iter")
 		klen := rapid.SampledFrom([]int{1, 16, 31, 32, 33, 48, 64, 65}).Draw(t, "klen")
-		salt := gen.Bytes(rapid.IntRange(0, 40)).Draw(t, "salt")
+		salt := gen.Bytes(rapid.IntRange(0, 80)).Draw(t, "salt")
 		dk := pbkdf2.Key(key, salt, iter, klen, func() hash.Hash { return sm3.New() })
 		if wantdk := rsm3.PBKDF2(key, salt, iter, klen); !bytes.Equal(dk, wantdk) {
 			t.Fatalf("PBKDF2-SM3 pw=%x salt=%x iter=%d klen=%d: got %x want %x", key, salt, iter, klen, dk, wantdk)
